@@ -189,7 +189,7 @@ theorem drained_queue_releases_a_writer (cap mm fl : Nat) (q : Q) (hq : Q.create
 
 -- non-vacuity: two writers asleep on a full queue of capacity 1, the consumer clears: the event is set
 example :
-    let q : Q := { cap := 1, maxMsg := 8, flags := 2, slots := [⟨0, 0, 0⟩] }
+    let q : Q := { cap := 1, maxMsg := 8, flags := flagBlockWriter, slots := [⟨0, 0, 0⟩] }
     let s := (BSys.init true q [[⟨1, 1, 8⟩], [⟨2, 1, 8⟩], [⟨3, 1, 8⟩]]).run [.writer 0, .writer 1, .writer 2, .clear]
     s.someAt .waiting ∧ s.q.count = 0 ∧ s.signaled = true := by
   refine ⟨⟨1, _, rfl, rfl⟩, rfl, rfl⟩
@@ -198,7 +198,7 @@ namespace ClearOld
 
 /-- `async_queue_clear` AS IT WAS (no `platform_event_set`): capacity 1, writer 0 fills the queue, writer 1 falls
     asleep on `not_full`, the consumer clears -/
-def q0 : Q := { cap := 1, maxMsg := 8, flags := 2, slots := [⟨0, 0, 0⟩] }
+def q0 : Q := { cap := 1, maxMsg := 8, flags := flagBlockWriter, slots := [⟨0, 0, 0⟩] }
 def stuck : BSys := (BSys.init false q0 [[⟨1, 1, 8⟩], [⟨2, 1, 8⟩]]).run [.writer 0, .writer 1, .clear]
 
 /-- the full statement on the old code -/
@@ -325,14 +325,14 @@ theorem console_worker_exits_after_stop (s : CSys) (hs : s.stopEv = true) (hd : 
 
 -- non-vacuity: stop arrives while the worker hands a chunk to a FULL drop-oldest queue
 example :
-    let q : Q := { cap := 1, maxMsg := 16, flags := 1, slots := [⟨0, 0, 4⟩], count := 1, head := 0, tail := 0 }
+    let q : Q := { cap := 1, maxMsg := 16, flags := flagDropOldest, slots := [⟨0, 0, 4⟩], count := 1, head := 0, tail := 0 }
     let s : CSys := { stopEv := true, pc := .enqueue 5, q }
     (s.runWorker [(.timeout, .eof), (.timeout, .eof), (.timeout, .eof)]).pc = .exited := by decide
 
 /-- the hypothesis is needed: on a BLOCK_WRITER queue that is full the worker sleeps in `async_queue_enqueue` and no
     stop request reaches it -/
 theorem console_worker_hangs_on_block_writer_queue (answers : List (SelRes × RdRes)) :
-    let q : Q := { cap := 1, maxMsg := 16, flags := 2, slots := [⟨0, 0, 4⟩], count := 1, head := 0, tail := 0 }
+    let q : Q := { cap := 1, maxMsg := 16, flags := flagBlockWriter, slots := [⟨0, 0, 4⟩], count := 1, head := 0, tail := 0 }
     let s : CSys := { stopEv := true, pc := .enqueue 5, q }
     (s.runWorker answers).pc = .enqueue 5 := by
   intro q s
